@@ -192,7 +192,7 @@ def _dict_under_direction(ctx, fn: FuncInfo, name: str, at: ast.AST, direction: 
     return keys
 
 
-def check_orientation(ctx, rule: str, sites: List[Tuple[str, str]]) -> None:
+def check_orientation(ctx, rule: str, sites: List[Tuple[str, str]], formulation_rule: Optional[Dict[str, str]] = None) -> None:
     """A construct pinning the *current* objective at (a fraction of) its optimum is oriented by the
     direction: max => lower bound, min => upper bound (or an equality)."""
     prog = ctx.prog
@@ -219,11 +219,18 @@ def check_orientation(ctx, rule: str, sites: List[Tuple[str, str]]) -> None:
             for p in pins:
                 r = _eval_kwargs_under_direction(ctx, fn, p, direction)
                 if r is None:
+                    covered = (formulation_rule or {}).get(short)
+                    if covered:
+                        # an unfamiliar spelling: the same fact is decided at formulation level for this function
+                        ctx.ok(rule, fn, p, f"direction={direction}: not evaluated here; decided at formulation level by {covered}", nontrivial=False)
+                        continue
                     raise AnalysisError(f"{rule}: the orientation of `{norm(p, 60)}` in {fn.short} cannot be evaluated for direction={direction}")
                 if r.get("unreachable"):
                     continue
                 results.append((p, r))
             if not results:
+                if (formulation_rule or {}).get(short) and any(i["rule"] == rule and i["function"].endswith(short) and "formulation level" in i["detail"] for i in ctx.instances):
+                    continue
                 ctx.bad(rule, fn, pins[0], f"no objective-pinning construct is built when the objective direction is '{direction}'")
                 continue
             for p, r in results:
